@@ -1,12 +1,15 @@
-(* Model of the buffer-mode skip functions of internal/decoder/context.go:
-   skipValue, skipObject, skipArray (what the typed decoders call for members
-   and elements the destination has no place for, and behind RawMessage and
-   Unmarshaler).  They do not validate: they count brackets and step over
-   strings.  Cursors are suffixes of src = data ++ [0]; reading at the empty
-   suffix is a read past the array (SStuck).
-   The two nested loops of skipObject / skipArray (the switch over the bytes and
-   the string loop inside it) are one machine with the state "inside a string"
-   and "after a backslash", so that every step consumes one byte. *)
+(* Model of the buffer-mode skip functions of internal/decoder/context.go: skipValue, skipObject / skipObjectRest /
+   skipMember, skipArray, skipString (what the typed decoders call for members and elements the destination has no
+   place for, behind RawMessage and Unmarshaler, and for the part of a document a path does not select).
+
+   Since the repair d699780 they check what they step over: white space, then by the first byte an object (members
+   of string key, colon, value, separated by commas), an array, a string (escapes, no raw control bytes), a number
+   (the characters of the number class, then the number grammar), or one of the three literals; one more level of
+   nesting than the limit is an error.  That is, statement for statement, the walk of Compact (Model/Compact.v,
+   c_value in compact mode) without its output -- which is how it is written here, so that the relation between that
+   walk and the RFC 8259 parser proved in Proofs/CompactP.v carries over.  Cursors are suffixes of src = data ++ [0];
+   reading at the empty suffix is a read past the array (SStuck).  The nesting limits of the two packages are the same
+   number (checked in Properties/C05.v). *)
 From Coq Require Import NArith ZArith List Bool.
 From GJ Require Import Base.Bytes Gen.Tables Model.Int Model.Compact Model.Iface.
 Import ListNotations.
@@ -15,80 +18,14 @@ Open Scope N_scope.
 Inductive sres :=
 | SOk (rest : list N)
 | SErr
+| SFuel
 | SStuck.
 
-Definition dmax : Z := dec_maxDecodeNestingDepth.
-
-(* obj = true: skipObject (count is braceCount); obj = false: skipArray (count is bracketCount) *)
-Fixpoint sk_scan (obj : bool) (count : nat) (depth : Z) (instr esc : bool) (l : list N) : sres :=
-  match l with
-  | [] => SStuck
-  | c :: r =>
-      if instr then
-        if esc then (if c =? 0 then SErr else sk_scan obj count depth true false r)
-        else if c =? 92 then sk_scan obj count depth true true r
-        else if c =? 34 then sk_scan obj count depth false false r
-        else if c =? 0 then SErr
-        else sk_scan obj count depth true false r
-      else if c =? 123 then
-        let depth' := (depth + 1)%Z in
-        if (dmax <? depth')%Z then SErr else sk_scan obj (if obj then S count else count) depth' false false r
-      else if c =? 125 then
-        if obj then
-          match count with
-          | 1%nat => SOk r
-          | _ => sk_scan obj (pred count) (depth - 1)%Z false false r
-          end
-        else sk_scan obj count (depth - 1)%Z false false r
-      else if c =? 91 then
-        let depth' := (depth + 1)%Z in
-        if (dmax <? depth')%Z then SErr else sk_scan obj (if obj then count else S count) depth' false false r
-      else if c =? 93 then
-        if obj then sk_scan obj count (depth - 1)%Z false false r
-        else
-          match count with
-          | 1%nat => SOk r
-          | _ => sk_scan obj (pred count) (depth - 1)%Z false false r
-          end
-      else if c =? 34 then sk_scan obj count depth true false r
-      else if c =? 0 then SErr
-      else sk_scan obj count depth false false r
-  end.
-
-(* the string loop of skipValue, after the opening quote *)
-Fixpoint sk_string (esc : bool) (l : list N) : sres :=
-  match l with
-  | [] => SStuck
-  | c :: r =>
-      if esc then (if c =? 0 then SErr else sk_string false r)
-      else if c =? 92 then sk_string true r
-      else if c =? 34 then SOk r
-      else if c =? 0 then SErr
-      else sk_string false r
-  end.
-
-Definition of_cres (r : cres (list N)) : sres :=
-  match r with COk rest => SOk rest | CErr => SErr | _ => SStuck end.
+Definition of_cres {A} (r : cres (A * list N)) : sres :=
+  match r with COk (_, rest) => SOk rest | CErr => SErr | CFuel => SFuel | CStuck => SStuck end.
 
 (* skipValue(buf, cursor, depth) *)
-Definition sk_value (depth : Z) (l : list N) : sres :=
-  match c_value_ws l with
-  | [] => SStuck
-  | c :: r =>
-      if c =? 123 then sk_scan true 1 (depth + 1)%Z false false r
-      else if c =? 91 then sk_scan false 1 (depth + 1)%Z false false r
-      else if c =? 34 then sk_string false r
-      else if (c =? 45) || isdig c then
-        match d_span_float r with
-        | None => SStuck
-        | Some (_, rest) => SOk rest
-        end
-      else if c =? 116 then of_cres (d_literal [116; 114; 117; 101] (c :: r))
-      else if c =? 102 then of_cres (d_literal [102; 97; 108; 115; 101] (c :: r))
-      else if c =? 110 then of_cres (d_literal [110; 117; 108; 108] (c :: r))
-      else SErr
-  end.
+Definition sk_value (depth : nat) (l : list N) : sres := of_cres (c_value None false (2 * length l + 2) depth l).
 
-(* an element the destination has no place for, as the array decoder meets it: [1, <value>] into [1]int
-   accepts iff the value is skipped and only white space and the closing bracket follow *)
+(* an element the destination has no place for, as the array decoder meets it *)
 Definition skip_run (data : list N) : sres := sk_value 1 (data ++ [0]).
